@@ -11,6 +11,7 @@ import Gecs.Model.World
 import Gecs.Model.Query
 import Gecs.Model.Macro
 import Gecs.Model.Check
+import Gecs.Gen.Consts
 import Gecs.Model.Events
 import Gecs.Model.Borrow
 
@@ -68,7 +69,8 @@ def panicClass (msg : String) : String :=
 /-! ### driver state -/
 
 structure DS where
-  cfg : Cfg := ⟨16777216, 4294967295, false, false, true⟩
+  -- constants GENERATED from /repo's sources on every run (tools/extract.py)
+  cfg : Cfg := ⟨Gen.MAX_DATA_CAPACITY, Gen.VERSION_MAX, false, false, true⟩
   decl : Mac.DWorld := ⟨"Wa", []⟩
   zst : List (List Bool) := []
   queries : List (String × Query) := []
